@@ -1,6 +1,7 @@
 package checks
 
 import (
+	"encoding/hex"
 	"fmt"
 	"strconv"
 	"strings"
@@ -19,7 +20,9 @@ import (
 //                       equal to the visited one, equal to one-segment-at-a-time lookup, and Focus hands the callback the
 //                       same node; for arbitrary paths Get fails exactly when stepwise lookup fails; ParsePath(p.String())
 //                       equals p segment-wise whenever no segment is empty or contains '/'.
-//   (D) correspondence: Get vs the model's `get` (`path.get`), ParsePath/String vs the model (`path.rt`).
+//   (D) correspondence: Get vs the model's `get` (`path.get`), ParsePath/String vs the model (`path.rt`); derivation
+//                       histories on the real Path (NewPath, ParsePath, AppendSegment*, Join, Parent, Pop, Truncate, Shift,
+//                       Last), every path re-read after every step, vs the slice/backing-array model (`pathheap.run`).
 
 func init() {
 	core.Register(&core.Check{ID: "C14", Run: runC14, Replay: replayC07})
@@ -130,8 +133,8 @@ func distSelector(c *core.Ctx, v core.Val) {
 }
 
 func runC14(c *core.Ctx) error {
-	c.Rule = "graphs and selectors as in C07; every visit path of the advanced walk is resolved with Get, Focus and stepwise lookup; plus random paths (existing, partially existing, non-numeric and signed/zero-padded numeric segments on lists, through links) and random segment strings for the format/parse round trip; non-trivial = path of at least 2 segments or crossing a link; distinct by (graph, path)"
-	c.Explanation = "theorems: parse_toString, get_eq_steps, visit_resolves (every visit path of the model walk resolves, through the model's get, to the visited node), get_fails_iff; segEquals facts from pathSegment.go"
+	c.Rule = "graphs and selectors as in C07; every visit path of the advanced walk is resolved with Get, Focus and stepwise lookup; plus random paths (existing, partially existing, non-numeric and signed/zero-padded numeric segments on lists, through links) and random segment strings for the format/parse round trip; derivation histories of 3..12 steps over all Path operations (from re-slices too, Truncate beyond the length included), non-trivial = a derivation from a re-slice; non-trivial = path of at least 2 segments or crossing a link; distinct by (graph, path)"
+	c.Explanation = "theorems: parse_toString, get_eq_steps, visit_resolves (every visit path of the model walk resolves, through the model's get, to the visited node), get_fails_iff; segEquals facts from pathSegment.go; C14heap: path_ops_preserve_reads, path_history_stable, derived_reads over the heap model of path.go, joinAppend_breaks_stability"
 	c.Assumptions = []string{"subset matches are compared on the unsliced node (selectors with a subset matcher are excluded from the visit-resolves oracle)", "Get follows a link found at the end of the path, exactly as the walk visits the loaded block at the link's position"}
 	n := c.Pick(400, 30000)
 	var lines, impl []string
@@ -321,6 +324,16 @@ func runC14(c *core.Ctx) error {
 		c.Count(caseID, len(ders) >= 3)
 		c.Dist("path-value")
 	}
+	// path heap: derivation HISTORIES on the real datamodel.Path — every kind of derivation, from any path made so far
+	// (re-slices from Parent/Pop/Truncate/Shift included, nested joins), every path made so far re-read after every step.
+	// Oracle: no earlier path's Segments()/String() changes.  Correspondence: the reads are those of the heap model
+	// (`pathheap.run`, Model/PathHeap.lean; theorems Props/C14heap.lean), including Truncate beyond the length.
+	var phLines, phImpl []string
+	for i := 0; i < c.Pick(900, 40000); i++ {
+		line, impl := c14PathHistory(c)
+		phLines = append(phLines, line)
+		phImpl = append(phImpl, impl)
+	}
 	// path text round trip
 	var rtLines, rtImpl []string
 	for i := 0; i < c.Pick(1500, 100000); i++ {
@@ -356,6 +369,20 @@ func runC14(c *core.Ctx) error {
 		c.Count(rtLines[len(rtLines)-1], len(segs) >= 2)
 		c.Dist("path-text")
 	}
+	phOuts, err := core.RunDriver(phLines)
+	if err != nil {
+		return err
+	}
+	for i := range phLines {
+		c.Trace(1)
+		if i < 2 {
+			c.Sample(map[string]string{"case": truncateStr(phLines[i], 500), "impl": truncateStr(phImpl[i], 300)})
+		}
+		if phOuts[i] != phImpl[i] {
+			c.Fail("C14/corr-path-heap", core.Replay{Kind: "correspondence", Case: phLines[i], Impl: phImpl[i], Model: phOuts[i],
+				Detail: "a derivation history on datamodel.Path reads differently from the slice/backing-array model of path.go"})
+		}
+	}
 	outs, err := core.RunDriver(append(lines, rtLines...))
 	if err != nil {
 		return err
@@ -372,6 +399,168 @@ func runC14(c *core.Ctx) error {
 		}
 	}
 	return nil
+}
+
+// c14PathHistory draws one derivation history, runs it on the real Path type with the value oracle after every step, and
+// returns the model's driver line with the implementation's reads in the driver's output format.
+func c14PathHistory(c *core.Ctx) (string, string) {
+	r := c.Rand
+	alphabet := []string{"a", "b", "0", "7", "k1", "..", ".", "x y", "", "zz"}
+	var paths []datamodel.Path
+	var snapSegs, snapStr []string
+	var toks, outs []string
+	segHex := func(xs []string) string {
+		var sb strings.Builder
+		for _, x := range xs {
+			sb.WriteString(hex.EncodeToString([]byte(x)))
+			sb.WriteByte('.')
+		}
+		return sb.String()
+	}
+	pick := func() int { // recent paths more often: derivations of derivations
+		if r.Bool() {
+			return len(paths) - 1 - r.Intn(min(3, len(paths)))
+		}
+		return r.Intn(len(paths))
+	}
+	nsteps := 3 + r.Intn(10)
+	reslices, nested := 0, 0
+	isReslice := map[int]bool{}
+	for k := 0; k < nsteps; k++ {
+		var tok, segOut string
+		var made *datamodel.Path
+		panicked := false
+		choice := r.Intn(18)
+		if len(paths) == 0 {
+			choice = r.Intn(2)
+		}
+		func() {
+			defer func() {
+				if rec := recover(); rec != nil {
+					panicked = true
+				}
+			}()
+			switch {
+			case choice == 0:
+				var segs []string
+				for m := r.Intn(5); m > 0; m-- {
+					segs = append(segs, alphabet[r.Intn(len(alphabet))])
+				}
+				tok = "new:" + segHex(segs)
+				p := mkPath(segs)
+				made = &p
+			case choice == 1:
+				var sb strings.Builder
+				for m := r.Intn(5); m > 0; m-- {
+					sb.WriteString([]string{"a", "bc", "0", "/", "//", "..", "x y"}[r.Intn(7)])
+					if r.Bool() {
+						sb.WriteByte('/')
+					}
+				}
+				tok = "parse:" + hexArg([]byte(sb.String()))
+				p := datamodel.ParsePath(sb.String())
+				made = &p
+			case choice <= 4:
+				i, x := pick(), alphabet[r.Intn(len(alphabet))]
+				tok = fmt.Sprintf("app:%d:%s", i, hexArg([]byte(x)))
+				p := paths[i].AppendSegmentString(x)
+				if r.Bool() {
+					p = paths[i].AppendSegment(datamodel.PathSegmentOfString(x))
+				}
+				made = &p
+				if isReslice[i] {
+					nested++
+				}
+			case choice == 5:
+				i, n := pick(), []int64{0, 3, 12, -1, 9223372036854775807}[r.Intn(5)]
+				tok = fmt.Sprintf("appi:%d:%d", i, n)
+				p := paths[i].AppendSegmentInt(n)
+				made = &p
+			case choice <= 9:
+				i, j := pick(), pick()
+				tok = fmt.Sprintf("join:%d:%d", i, j)
+				p := paths[i].Join(paths[j])
+				made = &p
+				if isReslice[i] || isReslice[j] {
+					nested++
+				}
+			case choice <= 11:
+				i := pick()
+				tok = fmt.Sprintf("par:%d", i)
+				p := paths[i].Parent()
+				made = &p
+				isReslice[len(paths)] = true
+			case choice == 12:
+				i := pick()
+				tok = fmt.Sprintf("pop:%d", i)
+				p := paths[i].Pop()
+				made = &p
+				isReslice[len(paths)] = true
+			case choice <= 14:
+				i := pick()
+				n := r.Intn(paths[i].Len() + 1)
+				if r.Chance(1, 4) {
+					n = paths[i].Len() + r.Intn(3) // beyond the length: inside the capacity for a re-slice, a panic otherwise
+					if r.Chance(1, 6) {
+						n = -1
+					}
+				}
+				tok = fmt.Sprintf("trunc:%d:%d", i, n)
+				isReslice[len(paths)] = true
+				p := paths[i].Truncate(n)
+				made = &p
+			case choice == 15:
+				i := pick()
+				tok = fmt.Sprintf("shift:%d", i)
+				_, p := paths[i].Shift()
+				made = &p
+				isReslice[len(paths)] = true
+			case choice == 16:
+				i := pick()
+				tok = fmt.Sprintf("last:%d", i)
+				segOut = "seg:" + hex.EncodeToString([]byte(paths[i].Last().String()))
+			default:
+				i := pick()
+				tok = fmt.Sprintf("shiftseg:%d", i)
+				sg, _ := paths[i].Shift()
+				segOut = "seg:" + hex.EncodeToString([]byte(sg.String()))
+			}
+		}()
+		toks = append(toks, tok)
+		if panicked {
+			outs = append(outs, "panic")
+			c.Dist("path-history:panic")
+			break
+		}
+		if made == nil {
+			outs = append(outs, segOut)
+			continue
+		}
+		if isReslice[len(paths)] {
+			reslices++
+		}
+		paths = append(paths, *made)
+		snapSegs = append(snapSegs, core.PathArg(pathSegStrings(*made)))
+		snapStr = append(snapStr, made.String())
+		// re-read every path made so far
+		reads := make([]string, len(paths))
+		for j, p := range paths {
+			reads[j] = core.PathArg(pathSegStrings(p))
+			if reads[j] != snapSegs[j] || p.String() != snapStr[j] || p.Len() != len(p.Segments()) {
+				c.Fail("C14/path-value-changed", core.Replay{Kind: "oracle", Case: "pathheap.run " + strings.Join(toks, " "),
+					Impl: fmt.Sprintf("path #%d reads %s (%q) after step %d (%s)", j, reads[j], p.String(), k, tok), Expected: snapSegs[j],
+					Detail: "a Path is a value: a path made earlier changed when another path was derived later"})
+			}
+		}
+		outs = append(outs, strings.Join(reads, ","))
+	}
+	line := "pathheap.run " + strings.Join(toks, " ")
+	c.Count(line, reslices > 0 && nested > 0)
+	c.Dist("path-history")
+	if nested > 0 {
+		c.Dist("path-history:derivation-from-a-reslice")
+	}
+	return line, strings.Join(outs, " | ")
 }
 
 func termOfOrErr(n datamodel.Node, err error) string {
